@@ -395,8 +395,9 @@ def main(check, argv=None):
     cov = {
         "evaluations": ev,
         "distinct_nontrivial": len(inter),
-        "rule": check.RULE + " Distinct = distinct digests of the per-host sequence of event kinds "
-                             "(api call/return, multicast tx, unicast tx, delivery, callback) among non-trivial runs.",
+        "rule": check.RULE + " " + getattr(check, "DISTINCT_RULE", "Distinct = distinct digests of the per-host sequence of "
+                                           "event kinds (api call/return, multicast tx, unicast tx, delivery, callback) "
+                                           "among non-trivial runs."),
         "samples": samples[:3] if samples else [{"note": "no non-trivial sample recorded"}],
         "nontrivial_runs": total["nontrivial"],
         "runs_per_hour": int(ev / max(search_wall, 1e-9) * 3600),
